@@ -202,6 +202,32 @@ impl Report {
         }
     }
 
+    /// For the small interpreter legs: no evidence file; prints one summary line (and one line per
+    /// violation that is not a listed finding) and returns 0 / 1.
+    pub fn finish_small(self, leg: &str) -> i32 {
+        let known = load_known_findings(&self.property);
+        let known_sigs: BTreeSet<String> = known.iter().map(|k| k.signature.clone()).collect();
+        let new: Vec<&Violation> = self.violations.iter().filter(|v| !known_sigs.contains(&v.signature)).collect();
+        for v in new.iter().take(5) {
+            println!("LEG-VIOLATION leg={} signature={} : {}", leg, v.signature, v.what);
+        }
+        println!(
+            "LEG-SUMMARY leg={} seed={} evaluations={} distinct={} new_violations={} listed_findings_hit={} counters={}",
+            leg,
+            self.seed,
+            self.evaluations,
+            self.distinct.len(),
+            new.len(),
+            self.violations.len() - new.len(),
+            serde_json::to_string(&self.counters).unwrap_or_default()
+        );
+        if new.is_empty() {
+            0
+        } else {
+            1
+        }
+    }
+
     /// Writes evidence + replay files, prints verdict lines, returns process exit code.
     pub fn finish(mut self) -> i32 {
         let dir = verif_dir();
